@@ -778,8 +778,8 @@ def build_plan(rng, thorough):
                         if prof == "churn":
                             ln = rng.choice([1500, 3000, 6000])
                         plan.append((prof, kt, vt, ln))
-        plan += [("big", 0, 1, 9000), ("big", 1, 0, 7000), ("big", 3, 2, 7000), ("big", 2, 1, 4000), ("big", 4, 2, 4000),
-                 ("big", 5, 0, 4000)]
+        plan += [("big", 0, 1, 7000), ("big", 1, 0, 5000), ("big", 3, 2, 5000), ("big", 2, 1, 3000), ("big", 4, 2, 3000),
+                 ("big", 5, 0, 3000)]
     else:
         plan = []
         combos = [(kt, vt) for kt in range(6) for vt in range(3)]
